@@ -712,8 +712,29 @@ class EscapeAnalysis:
             stack.extend(ast.iter_child_nodes(current))
         return result
 
+    def _setattr_setters(self, call, func):
+        """setattr(obj, name, value) runs the setter of the property ``name``: with a constant name that property's setters,
+        otherwise (the name is computed) the setters of every property of the enclosing class."""
+        if len(call.args) < 2:
+            return []
+        name = call.args[1]
+        if isinstance(name, ast.Constant) and isinstance(name.value, str):
+            return self.graph.property_setters(name.value)
+        cls = self.graph.enclosing_class(func)
+        setters = []
+        if cls is not None:
+            for klass in self.model.mro(cls):
+                for _getter, setter in klass.properties.values():
+                    if setter is not None and setter not in setters:
+                        setters.append(setter)
+        return setters
+
     def _call(self, call, func):
         result = []
+        if isinstance(call.func, ast.Name) and call.func.id == "setattr":
+            for setter in self._setattr_setters(call, func):
+                for item in self.summaries.get(setter.qualname, {}).values():
+                    result.append(item.via(func.qualname, call.lineno))
         targets = self.graph.resolve_call(func, call)
         if self.count_sites:
             self.call_sites += 1
@@ -798,6 +819,8 @@ class EscapeAnalysis:
                             stack.append(target)
                 elif isinstance(node, ast.Attribute) and isinstance(node.ctx, ast.Store):
                     stack.extend(self.graph.property_setters(node.attr))
+                if isinstance(node, ast.Call) and isinstance(node.func, ast.Name) and node.func.id == "setattr":
+                    stack.extend(self._setattr_setters(node, func))
             # nested functions are reachable when their parent is
             for other in self.model.functions.values():
                 if other.parent is func:
